@@ -69,15 +69,115 @@ func digitsC08(c *Ctx, f *ssa.Function) {
 			}
 		}
 	}
+	if n == 0 {
+		// no library conversion: digits accumulated by hand
+		for _, b := range f.Blocks {
+			for _, in := range b.Instrs {
+				mul, ok := in.(*ssa.BinOp)
+				if !ok || mul.Op != token.MUL || !isIntegerType(mul.Type()) {
+					continue
+				}
+				k, ok := mul.Y.(*ssa.Const)
+				if !ok || k.Value == nil || k.Value.String() != "10" {
+					continue
+				}
+				acc, isPhi := mul.X.(*ssa.Phi)
+				if !isPhi {
+					continue
+				}
+				n++
+				// what guards the accumulator? only comparisons of it with 0 cannot
+				// see a wrap past 2^64
+				onlySign, any := true, false
+				var scan func(v ssa.Value, d int)
+				seenV := map[ssa.Value]bool{}
+				inLoop := func(b *ssa.BasicBlock) bool {
+					// b is on a cycle through the accumulator's block
+					seenB := map[*ssa.BasicBlock]bool{}
+					var reach func(x *ssa.BasicBlock) bool
+					reach = func(x *ssa.BasicBlock) bool {
+						for _, nx := range x.Succs {
+							if nx == acc.Block() {
+								return true
+							}
+							if nx != acc.Block() && nx.Dominates(acc.Block()) {
+								continue // leaves the innermost loop through an enclosing header
+							}
+							if !seenB[nx] {
+								seenB[nx] = true
+								if reach(nx) {
+									return true
+								}
+							}
+						}
+						return false
+					}
+					return acc.Block().Dominates(b) && reach(b)
+				}
+				scan = func(v ssa.Value, d int) {
+					if seenV[v] || d > 4 {
+						return
+					}
+					seenV[v] = true
+					for _, ref := range *v.Referrers() {
+						if !inLoop(ref.Block()) {
+							continue
+						}
+						switch r := ref.(type) {
+						case *ssa.BinOp:
+							switch r.Op {
+							case token.LSS, token.LEQ, token.GTR, token.GEQ:
+								any = true
+								other := r.Y
+								if other == v {
+									other = r.X
+								}
+								if kk, ok := other.(*ssa.Const); !ok || kk.Value == nil || constant.Sign(kk.Value) != 0 {
+									onlySign = false
+								}
+							case token.ADD, token.MUL:
+								scan(r, d+1)
+							case token.QUO:
+								onlySign, any = false, true
+							}
+						case *ssa.Phi:
+							scan(r, d+1)
+						}
+					}
+				}
+				scan(acc, 0)
+				key := "ParseDuration: digits accumulated as n*10 + digit"
+				switch {
+				case !any:
+					c.Bad("C08.digits", key, mul.Pos(), "no overflow test on the accumulated number: a component of 2^63 or more wraps")
+				case onlySign:
+					c.Bad("C08.digits", key, mul.Pos(), "the only overflow test is the sign of the accumulated number: a component of 2^64 or more wraps past the sign bit to a small non-negative value (18446744073709551617ns parses as 1ns)")
+				default:
+					c.Unk("C08.digits", key, mul.Pos(), "hand-written accumulation with a bound test this rule does not evaluate")
+				}
+			}
+		}
+	}
 	c.Floor("C08.digits", n, 1)
 }
 
 // pureC08: the result depends on the argument only.
 func pureC08(c *Ctx) {
-	p := c.P
 	c.Rule("C08.pure", "ParseDuration and FormatDuration (and the in-package functions they call) read no package-level variable other than error values that nothing outside init assigns: the same spelling always yields the same duration, whatever was parsed before")
-	for _, name := range []string{"ParseDuration", "FormatDuration"} {
-		root := p.SSAFunc(p.Func(name))
+	pureRule(c, "C08.pure", "ParseDuration", "FormatDuration")
+}
+
+// pureRule: the named functions and their in-package callees touch no
+// package-level state that anything could have changed since initialisation.
+func pureRule(c *Ctx, rule string, names ...string) {
+	p := c.P
+	for _, name := range names {
+		var root *ssa.Function
+		if i := strings.Index(name, "."); i > 0 {
+			root = p.SSAFunc(p.Method(name[:i], name[i+1:]))
+		} else {
+			root = p.SSAFunc(p.Func(name))
+		}
 		if root == nil {
 			continue
 		}
@@ -111,14 +211,14 @@ func pureC08(c *Ctx) {
 			key := name + ": reads " + g.Name()
 			errT := types.Universe.Lookup("error").Type()
 			if types.Identical(g.Type().(*types.Pointer).Elem(), errT) && !assignedOutsideInit(p, g) {
-				c.OK("C08.pure", key, pos, "an error value assigned only at initialisation")
+				c.OK(rule, key, pos, "an error value assigned only at initialisation")
 			} else if !assignedOutsideInit(p, g) && !hasSyncType(g.Type(), 0) && !elementWritten(p, g) {
-				c.OK("C08.pure", key, pos, "a table that nothing outside initialisation assigns or writes into")
+				c.OK(rule, key, pos, "a table that nothing outside initialisation assigns or writes into")
 			} else {
-				c.Bad("C08.pure", key, pos, "package-level state on the way from spelling to duration: the result can depend on what was parsed before")
+				c.Bad(rule, key, pos, "mutable package-level state on the way from the argument to the result: the result can depend on earlier calls")
 			}
 		}
-		c.OK("C08.pure", name+": package-level variables examined", root.Pos(), fmt.Sprintf("%d functions, %d variables", len(seen), len(globals)))
+		c.OK(rule, name+": package-level variables examined", root.Pos(), fmt.Sprintf("%d functions, %d variables", len(seen), len(globals)))
 	}
 }
 
@@ -362,6 +462,27 @@ func ladderC08(c *Ctx, f *ssa.Function, parse map[string]int64) {
 		return
 	}
 	d := f.Params[0]
+	// divisibility and quotients are integer facts: nothing about d is decided
+	// in floating point
+	for _, b := range f.Blocks {
+		for _, in := range b.Instrs {
+			switch x := in.(type) {
+			case *ssa.Call:
+				if cal := x.Call.StaticCallee(); cal != nil {
+					switch cal.String() {
+					case "(time.Duration).Hours", "(time.Duration).Minutes", "(time.Duration).Seconds":
+						c.Bad("C08.ladder", "FormatDuration: "+cal.Name()+"() in floating point", x.Pos(), "whether the unit divides d is decided on a float64: a long duration with a small remainder (5000h + 1ns) rounds to a whole number of units and prints as if it were one")
+					}
+				}
+			case *ssa.Convert:
+				fb, ok1 := x.X.Type().Underlying().(*types.Basic)
+				tb, ok2 := x.Type().Underlying().(*types.Basic)
+				if ok1 && ok2 && fb.Info()&types.IsInteger != 0 && tb.Info()&types.IsFloat != 0 {
+					c.Bad("C08.ladder", "FormatDuration: duration converted to "+tb.Name(), x.Pos(), "the duration is taken through floating point: beyond 2^53 ns the printed value is a neighbour of d")
+				}
+			}
+		}
+	}
 	constOf := func(v ssa.Value) (int64, bool) {
 		k, ok := v.(*ssa.Const)
 		if !ok || k.Value == nil {
